@@ -346,6 +346,12 @@ class ClientWebSocketResponse(Generic[_DecodeText]):
             finally:
                 self._close_wait = None
 
+        while self._close_wait is not None and not self._waiting:
+            # close() of another task has woken receive() and has not resumed
+            # yet: it goes on with the handshake (its code/message), the woken
+            # task must not take the close over.
+            await asyncio.sleep(0)
+
         if self._closed:
             return False
 
